@@ -90,8 +90,49 @@ pub fn load_packages(pkgs: &[PkgSpec]) -> Loaded {
     Loaded { host, files, pkg_of_file }
 }
 
-/// Single local package rooted at /ws/pkg from (path, text) pairs.
+/// Packages from (path, text) pairs. Every `/ws/<dir>/gleam.toml` among the files opens a
+/// local package rooted at `/ws/<dir>`; its `[dependencies]` section names the packages it
+/// depends on (by package name). Without any manifest: one package rooted at /ws/pkg.
 pub fn single_package(files: &[(String, String)]) -> Vec<PkgSpec> {
+    let roots: Vec<(String, String)> = files
+        .iter()
+        .filter_map(|(p, t)| {
+            let dir = p.strip_prefix("/ws/")?.strip_suffix("/gleam.toml")?;
+            if dir.contains('/') {
+                return None;
+            }
+            Some((format!("/ws/{dir}"), t.clone()))
+        })
+        .collect();
+    if roots.len() >= 2 {
+        let name_of = |toml: &str| -> String {
+            toml.lines().find_map(|l| l.trim().strip_prefix("name")).and_then(|r| r.split('"').nth(1)).unwrap_or("pkg").to_string()
+        };
+        let names: Vec<String> = roots.iter().map(|(_, t)| name_of(t)).collect();
+        let mut pkgs = Vec::new();
+        for (root, toml) in &roots {
+            let mut deps = Vec::new();
+            let mut in_deps = false;
+            for l in toml.lines() {
+                let l = l.trim();
+                if l.starts_with('[') {
+                    in_deps = l == "[dependencies]";
+                    continue;
+                }
+                if in_deps {
+                    if let Some(n) = l.split('=').next() {
+                        if let Some(i) = names.iter().position(|x| x == n.trim()) {
+                            deps.push(i);
+                        }
+                    }
+                }
+            }
+            let prefix = format!("{root}/");
+            let fs: Vec<(String, String)> = files.iter().filter(|f| f.0.starts_with(&prefix)).cloned().collect();
+            pkgs.push(PkgSpec { root: root.clone(), name: name_of(toml), is_local: true, deps, files: fs });
+        }
+        return pkgs;
+    }
     let mut fs = files.to_vec();
     if !fs.iter().any(|f| f.0 == "/ws/pkg/gleam.toml") {
         fs.push(("/ws/pkg/gleam.toml".into(), "name = \"pkg\"\n".into()));
